@@ -1,5 +1,6 @@
 import Sop.Model.JsonPatch
 import Sop.Model.StoreInfoHistory
+import Sop.Model.StoreInfoGet
 import Sop.Driver.Util
 /-! Line-protocol driver for C13 (`Sop/Model/JsonPatch.lean`). Strings travel as hex of their UTF-8 bytes. -/
 namespace Sop.Driver.C13
@@ -93,6 +94,8 @@ structure St where
   /-- history cases (`hist`): files + shared cache + ghost, and the store names in the order they were added -/
   hist : Sop.SIHist.H := ⟨fun _ => {}, fun _ => 0⟩
   names : List String := []
+  /-- configuration cases (`cfg`): `Sop.Model.StoreInfoGet` -/
+  g : Sop.SIGet.St := []
 
 /-! ### history cases: `Sop.Model.StoreInfoHistory` over the `Update` model `Sop.Model.StoreInfoCache` -/
 section Hist
@@ -177,7 +180,68 @@ def showFile (o : Option (List Char)) : String :=
   | some f => hexOfChars f
   | none => "err"
 
+/-! ### configuration cases: multi-name `Get`, commits, process restarts (`Sop.Model.StoreInfoGet`) -/
+section Cfg
+open Sop.SIGet
+
+def sortNat (l : List Nat) : List Nat :=
+  l.foldl (fun acc x => (acc.filter (· < x)) ++ [x] ++ (acc.filter (· > x))) []
+
+def showKeys (l : List Nat) : String := if l.isEmpty then "0" else "+".intercalate ((sortNat l).map toString)
+
+def showCfg (c : Cfg) : String :=
+  s!"{c.base}:{c.cel}:{c.rel}:{c.kf}:{c.vf}:{c.ver}:{showKeys c.schema}:{showKeys c.cd}"
+
+def keysOf (w : String) : List Nat := if w == "0" then [] else (w.splitOn "+").filterMap String.toNat?
+
+def cfgOf (ws : List String) : Option Cfg :=
+  match ws with
+  | [b, cel, rel, kf, vf, ver, sch, cd] =>
+    match b.toNat?, cel.toNat?, rel.toNat?, kf.toNat?, vf.toNat?, ver.toNat? with
+    | some b, some cel, some rel, some kf, some vf, some ver =>
+      some { base := b, cel := cel, rel := rel, kf := kf, vf := vf, ver := ver, schema := keysOf sch, cd := keysOf cd }
+    | _, _, _, _, _, _ => none
+  | _ => none
+
+/-- printed in name order: which entries hit the cache (and so come first in the real result) is the cache's business -/
+def sortPairs (l : List (String × Cfg)) : List (String × Cfg) :=
+  l.foldl (fun acc x => (acc.filter (fun y => y.1 < x.1 || y.1 == x.1)) ++ [x] ++ (acc.filter (fun y => x.1 < y.1))) []
+
+def showPairs (l : List (String × Cfg)) : String :=
+  if l.isEmpty then "-" else " ".intercalate ((sortPairs l).map fun p => s!"{p.1}={showCfg p.2}")
+
+def showOpt : Option Cfg → String
+  | none => "none"
+  | some c => showCfg c
+
+def cfgStep (st : St) (ws : List String) : Option (St × String) :=
+  match ws with
+  | "gadd" :: n :: rest =>
+    match cfgOf rest with
+    | some c => some ({ st with g := st.g.add n c, names := st.names ++ [n] }, "ok")
+    | none => none
+  | "gget" :: names =>
+    let r := getWith false st.g names
+    some ({ st with g := r.1 }, showPairs r.2)
+  | ["gcommit", n, full] =>
+    let g' := commitWith false st.g n (full == "1")
+    some ({ st with g := g' }, showOpt (g'.cell n).disk)
+  -- the in-memory L2 cache evicts on its own: the harness reports which entries are present (see `hsync`)
+  | ["gsync", bits] =>
+    let pairs := st.names.zip bits.toList
+    let unexpected := pairs.filter fun (n, b) => b == '1' && (st.g.cell n).cache.isNone
+    let g' := pairs.foldl (fun (g : Sop.SIGet.St) (n, b) => if b == '0' then g.evict n else g) st.g
+    some ({ st with g := g' }, if unexpected.isEmpty then "ok" else "unexpected-entry:" ++ ",".intercalate (unexpected.map (·.1)))
+  | ["gevict", n] => some ({ st with g := st.g.evict n }, "ok")
+  | ["gnewproc"] => some ({ st with g := st.g.coldStart st.names }, "ok")
+  | ["gdisk"] => some (st, " ".intercalate (st.names.map fun n => s!"{n}={showOpt (st.g.cell n).disk}"))
+  | _ => none
+end Cfg
+
 def step (st : St) (ws : List String) : St × String :=
+  match cfgStep st ws with
+  | some r => r
+  | none =>
   match histStep st ws with
   | some r => r
   | none =>
